@@ -247,8 +247,8 @@ def ev_redeclare(st):
               dict(b='bool', y=(-9, 1))):
         try:
             aut.declare_variables(**d)
-        except ValueError:
-            continue
+        except (ValueError, AssertionError, TypeError):
+            continue      # refused (the pristine tree raises ValueError)
         # accepted: then it must be what the context now means
         for v, h in d.items():
             if h == 'bool':
@@ -280,7 +280,7 @@ def ev_define(st):
     for d in ('pos == x < 1', 'both == ~ b'):
         try:
             aut.define(d)
-        except ValueError:
+        except (ValueError, AssertionError, TypeError):
             pass
     u2 = aut.add_expr('both \\/ (y = 1)', with_ops=True)
     if u2 != u1:
